@@ -252,6 +252,11 @@ class H4File:
                 if remaining <= 0:
                     break
                 want = blen
+                if first and r != 0:
+                    # the first block keeps the length the element had when it was converted
+                    b0 = self.by_key.get((DFTAG_LINKED, r))
+                    if b0 is not None and b0.len >= 0:
+                        want = b0.len
                 take = min(want, remaining)
                 if r == 0:
                     out += b"\0" * take          # never-written block: reads as zeros
@@ -264,9 +269,6 @@ class H4File:
                         segs.append((None, take))
                     else:
                         braw = self.raw(b) or b""
-                        if first and len(braw) != blen:
-                            # the first block may have its own length (converted element)
-                            pass
                         chunk = braw[:take]
                         if len(chunk) < take:
                             chunk = chunk + b"\0" * (take - len(chunk))
